@@ -812,8 +812,12 @@ def _keyed_emit(F, R, co, nm):
             out = _outcome(p, ("await", c[2][1], c[2][3]))
             if out == "Some":
                 n_loop += 1
-                ok = bool(rm) and rm[0][0] > c[0] and p.cut and D.mentions(rm[0][2][2], lambda y, c=c: y == ("field", ("as", ("await", c[2][1], c[2][3]), "Some"), 0))
-                R.check(ok and not fi, f"emit/{nm}/child-removed-and-loop", co, "a finished child is removed and the next one is drained",
+                looped = p.cut or (bool(rm) and any(e2[0] == "loop-back" for e2 in p.effects[rm[0][0]:]))   # (the loop may live in an inlined private helper)
+                ok = bool(rm) and rm[0][0] > c[0] and looped and D.mentions(rm[0][2][2], lambda y, c=c: y == ("field", ("as", ("await", c[2][1], c[2][3]), "Some"), 0))
+                inl_loop = bool(rm) and any(e2[0] == "loop-back" for e2 in p.effects[rm[0][0]:])
+                # (loop in an inlined helper: the row goes on behind the loop as if it had ended — what follows is judged on the rows
+                # that really leave the loop)
+                R.check(ok and (not fi or inl_loop), f"emit/{nm}/child-removed-and-loop", co, "a finished child is removed and the next one is drained",
                         f"the {nm} emitter does not remove a finished child (by the key its emit returned) and continue with the next")
         if fi:
             n_finished += 1
@@ -824,6 +828,7 @@ def _keyed_emit(F, R, co, nm):
             cur = [x for x in acts if x[1] == "current" and x[0] < fi[0][0]]
             drained = any(_outcome(p, ("call", x[2][1], x[2][2], x[2][4])) == "None" for x in cur) or \
                 any(_outcome(p, ("await", c[2][1], c[2][3])) == "None" for c in ch if c[0] < fi[0][0])
+            drained = drained or any(e2[0] == "loop-back" for e2 in p.effects[:fi[0][0]])
             R.check(drained and all(c[0] < fi[0][0] for c in ch) and fi[0] is acts[-1] and not p.cut, f"emit/{nm}/finished-last", co, "Finished follows the children's drain",
                     f"the {nm} emitter can forward its Finished before its children are drained (or drain again after it)")
         if not p.cut:
